@@ -12,12 +12,14 @@ ENGINE_B = [{'template': 't_impl', 'kinds': ['addrcall_'], 'max_quick': 14, 'max
             {'template': 't_implname', 'kinds': ['addrcall_'], 'max_quick': 4, 'max_thorough': 16,
              'fixed': [[8, 0x140001000, 0x140002000, 2, 0, 3, 4, 1, 2], [8, 4096, 8192, 2, 0, 0, 3, 1, 0]]},
             # longer parameter lists: 4..6 parameters of mixed width in the emitted wrapper
-            {'template': 't_impl6', 'kinds': ['addrcall_'], 'max_quick': 8, 'max_thorough': 32, 'abi': True,
-             'fixed': [[8, 0x140003000, 1, 6, 0, 1, 2, 3, 1, 0, 2, 0], [8, 0x7FF712345678, 0, 6, 1, 0, 3, 2, 0, 1, 1, 0], [8, 4096, 2, 5, 3, 3, 0, 1, 2, 0, 0, 0],
-                       [8, 8192, 1, 4, 1, 1, 0, 0, 0, 0, 4, 0],
+            {'template': 't_impl6', 'kinds': ['addrcall_'], 'max_quick': 12, 'max_thorough': 32, 'abi': True,
+             'fixed': [[8, 0x140003000, 1, 6, 0, 1, 2, 3, 1, 0, 2, 0, 0], [8, 0x7FF712345678, 0, 6, 1, 0, 3, 2, 0, 1, 1, 0, 0], [8, 4096, 2, 5, 3, 3, 0, 1, 2, 0, 0, 0, 0],
+                       [8, 8192, 1, 4, 1, 1, 0, 0, 0, 0, 4, 0, 0],
                        # parameters named like the identifiers the wrapper itself binds (`this`, `f`)
-                       [8, 4096, 1, 4, 2, 0, 1, 0, 0, 0, 1, 1], [8, 4096, 1, 4, 0, 0, 1, 3, 0, 0, 1, 2], [8, 4096, 2, 5, 1, 0, 0, 0, 3, 0, 2, 3],
-                       [8, 4096, 0, 4, 3, 0, 0, 0, 0, 0, 0, 2]]}]
+                       [8, 4096, 1, 4, 2, 0, 1, 0, 0, 0, 1, 1, 0], [8, 4096, 1, 4, 0, 0, 1, 3, 0, 0, 1, 2, 0], [8, 4096, 2, 5, 1, 0, 0, 0, 3, 0, 2, 3, 0],
+                       [8, 4096, 0, 4, 3, 0, 0, 0, 0, 0, 0, 2, 0],
+                       # packed owner type, &self and &mut self receivers
+                       [8, 4096, 1, 4, 0, 1, 0, 3, 0, 0, 1, 0, 1], [8, 8192, 2, 4, 1, 0, 0, 0, 0, 0, 2, 0, 1]]}]
 CC = ['C', 'cdecl', 'stdcall', 'fastcall', 'thiscall', 'vectorcall', 'system', 'bogus']
 ARGT = {0: ['raw', 'u32'], 1: ['raw', 'u64'], 2: ['const*', ['raw', 'm::T']], 3: ['mut*', ['raw', 'u8']], 5: ['raw', 'bool']}
 ARGS_TXT = {0: 'u32', 1: 'u64', 2: '*const T', 3: '*mut u8', 4: 'Nope', 5: 'bool', 6: '*const Nope'}
@@ -62,7 +64,7 @@ def slices(tier, rng):
             if tier == 'quick' and ps == 8 and sub == 'args': continue
             out.append(Slice('%s-ps%d' % (sub, ps), 't_impl', 12, lambda a, ps=ps, sub=sub: assume(a, ps, sub),
                              opts={'must_reach': ['ok', 'err']}))
-        out.append(Slice('six-ps%d' % ps, 't_impl6', 12, lambda a, ps=ps, tier=tier: six_assume(a, ps, tier), opts={'must_reach': ['ok', 'err']}))
+        out.append(Slice('six-ps%d' % ps, 't_impl6', 13, lambda a, ps=ps, tier=tier: six_assume(a, ps, tier), opts={'must_reach': ['ok', 'err']}))
         out.append(Slice('names-ps%d' % ps, 't_implname', 9, lambda a, ps=ps: names_assume(a, ps), opts={'must_reach': ['ok', 'err']}))
     return out
 
@@ -72,8 +74,10 @@ def six_assume(a, ps, tier):
     # quick: u32 / u64 in every position, plus a pointer or an unresolvable type in the last one; thorough: u32 / u64 / *mut u8 everywhere
     kinds = (0, 1) if tier == 'quick' else (0, 1, 3)
     last = (0, 1, 3, 4)
-    A = [a[0] == ps, a[1] >= 0, z3.ULE(a[2], 2), z3.UGE(a[3], 4), z3.ULE(a[3], 6), z3.ULE(a[10], 2 if tier == 'quick' else 4), z3.ULE(a[11], 3)]
-    if tier == 'quick': A.append(z3.Implies(a[11] != 0, a[10] == 0))     # parameter names vary with no return type only
+    A = [a[0] == ps, a[1] >= 0, z3.ULE(a[2], 2), z3.UGE(a[3], 4), z3.ULE(a[3], 6), z3.ULE(a[10], 2 if tier == 'quick' else 4), z3.ULE(a[11], 3), z3.ULE(a[12], 1)]
+    if tier == 'quick':
+        A.append(z3.Implies(a[11] != 0, a[10] == 0))     # parameter names vary with no return type only
+        A.append(z3.Implies(a[12] != 0, z3.And(a[11] == 0, a[3] == 4)))     # packed owner: four parameters, default names
     for j in range(6):
         A.append(z3.Or(*[a[4 + j] == k for k in (last if j == 5 else kinds)]))
         A.append(z3.Implies(z3.ULE(a[3], j), a[4 + j] == 0))
@@ -225,8 +229,9 @@ def describe(template, args):
         n_ = min(a[3], 6); kind = a[11] if len(a) > 11 else 0
         nm = lambda j: 'this' if (kind == 1 and j == 0) else 'f' if ((kind == 2 and j == 0) or (kind == 3 and j == n_ - 1)) else 'a%d' % j
         ps_ = [R.get(a[2], '')] + ['%s: %s' % (nm(j), ARGS_TXT.get(a[4 + j], '?')) for j in range(n_)]
-        return '// pointer size %d\n#[align(4)]\npub type T { pub a: u32 }\nimpl T {\n    #[address(%d)] pub fn g0(%s)%s;\n}' % (
-            a[0], a[1], ', '.join(x for x in ps_ if x), '' if a[10] == 0 else ' -> ' + ARGS_TXT.get(a[10] - 1, '?'))
+        owner = '#[packed]\npub type T { pub b: u8, pub a: u32 }' if len(a) > 12 and a[12] else '#[align(4)]\npub type T { pub a: u32 }'
+        return '// pointer size %d\n%s\nimpl T {\n    #[address(%d)] pub fn g0(%s)%s;\n}' % (
+            a[0], owner, a[1], ', '.join(x for x in ps_ if x), '' if a[10] == 0 else ' -> ' + ARGS_TXT.get(a[10] - 1, '?'))
     if template == 't_implname':
         R = {0: '', 1: '&self', 2: '&mut self'}
         vn = {1: 'g0', 2: 'g1', 3: 'h'}; bn = {1: 'pub fn g0', 2: 'pub fn g1', 3: 'fn g0', 4: 'pub fn h'}
